@@ -1243,3 +1243,67 @@ Example C05_db_sample_covered2_history :
                kvs_get (vals (fst (Queries.exec rv_fixed sx_db (cq_query (CqInsertEdge 2 1))))) (-4) = [].
 Proof. exact sz_sample. Qed.
 Print Assumptions C05_db_sample_covered2_history.
+
+(* ---- ALIASES: DbImpl::insert_new_alias as a storage program (theories/StoredDbOpsAlias.v, ..Alias2.v, ..Alias3.v) ----
+   so_alias_insert_new hs hi x a id alias = DbImpl::insert_new_alias(db_id, alias): the undo push is in memory;
+   self.aliases.insert = IndexedMapImpl::insert = keys_to_values.insert(alias, id) then values_to_keys.insert(id, alias),
+   each MapImpl::insert = MultiMapImpl::insert_or_replace(|_| true): transaction; the probe loop from hash % capacity over
+   data.state / data.key (on fuel = capacity: running out of it is CDead, which the theorem excludes); do_insert =
+   set_state(Valid), set_key, set_value, set_len(len + 1); commit.  a = the two DbMapData handles (so_alias_handles: those
+   of the witness).
+   _partial — ASSUMED / NOT MODELLED:
+     * the branches that are not executed under the hypotheses are PARAMETERS of the program (x : so_alias_rest; the theorem
+       holds for every x): the grow `len >= max_len => rehash(capacity * 2)`, the in-place rehash after a full probe cycle,
+       and the removals IndexedMapImpl::insert performs when an insertion replaced a previous value / key;
+     * so_alias_tables_ok: C19's invariant PInv of the two STORED tables (what every history of multi_map.rs operations from
+       the empty table satisfies — C19_table_refines_multimap; it is an explicit hypothesis here, and it is RE-ESTABLISHED
+       for the new tables), for hash functions hs / hi (every function) and a minimum capacity >= 4 (64 in the code);
+     * the alias is NEW (imap_value = None) and the id has NO alias (imap_key = None) — the situation in which db.rs
+       calls insert_new_alias after its own lookups;
+     * so_alias_new_ok: neither table grows (len < capacity * 15 / 16 — in particular the tables are not empty: the first
+       insertion into an empty table always grows), neither probe comes back to its start (stated on OpenMap.v's ior_loop
+       at the revision with the wrap guard: no in-place rehash), the alias / the id are valid elements (el_valid
+       law_string / law_i64), len + 1 < 2^64.
+   Conclusion: the store holds DbModel's insert_new_alias d id alias, the witness changed in the two alias components only
+   (the graph / values handles stay valid), both tables satisfy PInv again, depth restored, frame. *)
+From Agdb Require Import StoredDbOpsAlias StoredDbOpsAlias2 StoredDbOpsAlias3.
+
+Theorem C05_db_insert_new_alias_preserves_stored_db_partial :
+  forall (hs : bytes -> N) (hi : Z -> N) (mincap : nat), (4 <= mincap)%nat ->
+  forall (fl : bool) x root d w h a id alias sp,
+    stored_db_w (hp sp) root d w -> so_handles h w -> so_alias_handles a w -> so_alias_tables_ok hs hi mincap w ->
+    imap_value (aliases d) alias = None -> imap_key (aliases d) id = None ->
+    so_alias_new_ok hs hi w id alias ->
+    cwp fl (so_alias_insert_new hs hi x a id alias) sp
+        (fun r sp' => exists a' w', r = CrOk a' /\ stored_db_w (hp sp') root (insert_new_alias d id alias) w' /\
+                        so_handles h w' /\ so_alias_handles a' w' /\ so_alias_tables_ok hs hi mincap w' /\
+                        (exists m1 m2, w' = sd_with_a2 (sd_with_a1 w m1) m2) /\
+                        sdepth sp' = sdepth sp /\ frame (hp sp) (hp sp') (sd_foot root w) (sd_foot root w')).
+Proof. exact so_alias_insert_new_stored. Qed.
+Print Assumptions C05_db_insert_new_alias_preserves_stored_db_partial.
+
+(* the generic step: MapImpl::insert of an ABSENT key on ANY represented DbMapData (also the id tables of the indexes), no grow
+   and no full probe cycle: the table the program leaves is the one OpenMap.v's insert_or_replace computes — PInv again, the
+   pairs are (key, value) :: the old ones as a multiset *)
+Theorem C05_map_insert_absent_partial :
+  forall (K V : Type) (EK : cv_elem K) (EV : cv_elem V) (LK : elem_law EK) (LV : elem_law EV)
+         (keqb : K -> K -> bool) (veqb : V -> V -> bool) (hk : K -> N) (mincap : nat) (fl : bool),
+    (forall a b, keqb a b = true <-> a = b) -> (forall a b, veqb a b = true <-> a = b) -> (4 <= mincap)%nat ->
+  forall x d ss ks vs t key nv sp,
+    mrep K V EK EV LK LV (hp sp) d ss ks vs t -> OpenMapRefineStep.PInv K V hk mincap (ct_omap K V t) ->
+    so_key_absent K V keqb (ct_slots K V (ct_states t) (ct_keys t) (ct_values t)) key ->
+    so_no_grow K V t -> so_no_full_cycle K V keqb hk t key nv ->
+    el_valid LK key -> el_valid LV nv -> (ct_len t + 1 < two64)%N ->
+    cwp fl (so_map_insert K V EK EV keqb hk x d key nv) sp
+        (fun r sp' => exists d' ss' ks' vs' t',
+           r = CrOk (d', None) /\ mrep K V EK EV LK LV (hp sp') d' ss' ks' vs' t' /\ cm_index d' = cm_index d /\
+           OpenMapRefineStep.PInv K V hk mincap (ct_omap K V t') /\
+           Permutation (sd_table_entries t') ((key, nv) :: sd_table_entries t) /\
+           sdepth sp' = sdepth sp /\
+           frame (hp sp) (hp sp') (mfoot K V EK EV LK LV d ss ks vs) (mfoot K V EK EV LK LV d' ss' ks' vs')).
+Proof.
+  intros K V EK EV LK LV keqb veqb hk mincap fl E1 E2 Hm x d ss ks vs t key nv sp HM HP Ha Hg Hf VK VV HL.
+  eapply (so_map_insert_absent K V EK EV LK LV keqb veqb hk mincap fl E1 E2 Hm); eauto.
+  intros d' ss' ks' vs' t' sp' A B C D E F. exists d', ss', ks', vs', t'. auto 10.
+Qed.
+Print Assumptions C05_map_insert_absent_partial.
